@@ -3,5 +3,20 @@ HOOK_COMMITS = []
 NOT_APPLICABLE = {}
 NOTES = ("Exit codes: 0 held, 1 violated (VIOLATION lines), 2 inconclusive (a deciding monitor was not reached / "
          "harness error / watchdog) - exit 2 does not occur on the unchanged tree. Known findings: /verif/known_findings.json. "
-         "VERIF_REPO=<dir> points every check at another working tree (used for the mutant audit).")
-CLAIMED = {}
+         "VERIF_REPO=<dir> points every check at another working tree (used for the mutant audit). "
+         "Every check shards its seeded case stream over worker subprocesses (quick: 4-6, thorough: 16).")
+_MON = "runtime monitoring: "
+CLAIMED = {
+    "C01": dict(level="exploration", technique=_MON + "reference-model monitor (independent query evaluator over generated corpora) on 8 access paths of the real engine",
+                text="Every generated (history, query tree, weighting) case is run through the real index and compared, per access path, with an independent set-semantics evaluator; held on the cases explored (thousands per quick run, tens of thousands thorough), with reach counters per query class and layout.",
+                note="Trusted: the ~150-line evaluator in vf/model.py and the documented reading of each query type (listed in evidence assumptions); analysis is pinned to str.split() on a controlled vocabulary."),
+    "C05": dict(level="exploration", technique=_MON + "differential monitor limit=k vs exhaustive ranking on the same searcher, with collector spy counters proving block skipping/replace engaged",
+                text="Top-k lists are compared hit by hit (doc, score, order, tie rule) with the prefix of the exhaustive ranking for generated queries, weighting models, block limits, segment layouts, filters/masks/terms; runs where skipping and tree replacement engaged are counted and floored.",
+                note="Trusted: the exhaustive collector as ranking oracle (checked independently by C09); float ties within 1e-9 may swap."),
+    "C11": dict(level="exploration", technique=_MON + "protocol monitor: generated programs over the matcher API executed on real matcher trees against a stepped reference list cross-checked with the model",
+                text="For every matcher tree produced by generated queries (incl. span queries, array union, multi-segment, filters) three random programs over next/skip_to/skip_to_quality(0)/replace(0)/copy/reset/reads are executed and every position and read is asserted; held on the programs explored; each matcher class is counted.",
+                note="Trusted: plain next()-stepping of a fresh matcher as reference (its id set is compared with the independent model); negations have no posting value (not compared)."),
+    "C12": dict(level="exploration", technique=_MON + "invariant monitor: block_quality/max_quality vs reference scores after every operation; skip_to_quality(q)/replace(q) loss checks; leaf block monitor",
+                text="Upper-bound invariants are asserted at every position reached by generated programs with thresholds at/below/above remaining scores, for all shipped weighting models and parameters; on-disk posting blocks are checked entry by entry.",
+                note="Trusted: stepped reference scores; 1e-9 relative slack; models that do not claim quality support are only checked not to claim."),
+}
